@@ -13,7 +13,7 @@ import time
 
 REPO = "/repo"
 VERIF = os.path.dirname(os.path.abspath(__file__))
-ENV = dict(os.environ, GOFLAGS="-mod=mod", GOPROXY="off", GOSUMDB="off", GOTOOLCHAIN="local")
+ENV = dict(os.environ, GOFLAGS="-mod=mod", GOPROXY="off", GOSUMDB="off", GOTOOLCHAIN="local", VERIF_EVIDENCE_DIR=os.path.join(os.path.dirname(os.path.abspath(__file__)), "work", "evidence-experiments"))
 
 # (name, property, file, old, new, description)
 MUTANTS = [
